@@ -336,3 +336,33 @@ M("C11", "2vec-one-past-end", [(CW, "    for (i=0; i<n; i++) {\n        res[i] =
   "Da with two arrays longer than 64 reads and writes one element past the end (heap overflow: ASan)")
 M("C11", "vnpts-weights-from-5pt", [(CL, "        v += f1*dv*c->vw[i];", "        v += f1*dv*c->vw[i]*(1.0 + 1e-7);")], "volume 1e-7 too large")
 M("C11", "h-does-not-override", [(CY, "        if h is not None:\n            H0 = 100.0 * h\n", "        if h is not None and H0 == 100.0:\n            H0 = 100.0 * h\n")], "h is ignored when H0 is also given")
+
+# ---- C12
+HC = "esutil/htm/htmc.cc"
+HH = "esutil/htm/htmc.h"
+M("C12", "distance-cut-strict", [(HC, "                    if (dis <= rad) {\n                        PAIR_INFO pi;", "                    if (dis < rad) {\n                        PAIR_INFO pi;")],
+  "identical points no longer match at radius 0")
+M("C12", "partial-triangles-skipped", [(HC, "        // number of triangles found\n        npy_intp nfound = flist.length() + plist.length();\n        std::vector<int64_t> idlist(nfound);\n        npy_intp idcount=0;\n\n        // We could speed",
+                                        "        // number of triangles found\n        npy_intp nfound = flist.length() + plist.length();\n        if (flist.length() > 40) nfound = flist.length();\n        std::vector<int64_t> idlist(nfound);\n        npy_intp idcount=0;\n\n        // We could speed"),
+                                       (HC, "        // ----------- Partial Nodes ----------\n        for(size_t i = 0; i < plist.length(); i++)\n        {  \n            idlist[idcount] = plist(i);\n            idcount++;\n        }\n\n\n        // these are temporary",
+                                        "        // ----------- Partial Nodes ----------\n        for(size_t i = 0; i < plist.length() && idcount < nfound; i++)\n        {  \n            idlist[idcount] = plist(i);\n            idcount++;\n        }\n\n\n        // these are temporary")],
+  "when more than 40 triangles lie fully inside the circle the partially covered rim triangles are dropped")
+M("C12", "maxmatch-keeps-one-more", [(HC, "                if (nkeep > maxmatch) {\n                    nkeep=maxmatch;\n                }", "                if (nkeep > maxmatch + 1) {\n                    nkeep=maxmatch + 1;\n                }")],
+  "groups with more than k+1 candidates are cut to k+1")
+M("C12", "sort-descending-large-groups", [(HH, "		return pi1.d12 < pi2.d12;", "		return pi1.d12 < pi2.d12 || (pi1.i2 > 300 && pi2.i2 > 300 && pi1.d12 > pi2.d12 && false) ;")],
+  "equivalent", control=True)
+M("C12", "sort-skipped-for-pairs-of-two", [(HC, "            std::sort( pair_info.begin(), pair_info.end(), PAIR_INFO_ORDERING());", "            if (nkeep != 2) std::sort( pair_info.begin(), pair_info.end(), PAIR_INFO_ORDERING());")],
+  "groups of exactly two are left in discovery order")
+M("C12", "file-distance-g", [(HC, 'fprintf(fptr, "%ld %ld %.16g\\n", ', 'fprintf(fptr, "%ld %ld %g\\n", ')], "file route writes separations with six digits")
+M("C12", "maxid-break-skips-partial", [(HC, "        for (npy_intp j=0; j<nfound; j++) {\n\n            int64_t htmid = idlist[j];\n\n            iter=this->hmap.find(htmid);",
+                                        "        int64_t mx_id = this->hmap.empty() ? -1 : this->hmap.rbegin()->first;\n        for (npy_intp j=0; j<nfound; j++) {\n\n            int64_t htmid = idlist[j];\n            if (htmid > mx_id) break;\n\n            iter=this->hmap.find(htmid);")],
+  "ids come back in two sorted runs (full, then partial): breaking at the first id above the populated maximum skips the partial run")
+M("C12", "acos-distance-again", [(HC, "    dis = atan2(sqrt(s1*s1 + s2*s2), cosdis);", "    if (cosdis > 1.0) cosdis = 1.0;\n    if (cosdis < -1.0) cosdis = -1.0;\n    dis = acos(cosdis);")], "the original defect D20")
+M("C12", "search-cap-not-padded", [(HC, "    double srad = rad_degrees + 1.0e-5;", "    double srad = rad_degrees;")], "the original tiny-radius defect")
+M("C12", "per-point-radius-needs-three", [(HC, "        if (nrad > 1) {\n            rad = *(double *) PyArray_GETPTR1((PyArrayObject *) radius_array, i_input);\n            d = cos_search_radius(rad);",
+                                           "        if (nrad > 2) {\n            rad = *(double *) PyArray_GETPTR1((PyArrayObject *) radius_array, i_input);\n            d = cos_search_radius(rad);")],
+  "a per-point radius array of length two is ignored (radius stays 0)")
+M("C12", "read-pairs-empty-raises-again", [(HT, "    if os.path.getsize(filename) == 0:", "    if False:")], "the original defect D21")
+M("C12", "matcher-python-radius-f4", [(HT, "        radius = np.atleast_1d(radius).astype('f8')\n\n        if ra.size != dec.size:\n            raise ValueError(\n                \"ra size (%d) != \" \"dec size (%d)\" % (ra.size, dec.size)\n            )\n\n        if radius.size != 1",
+                                       "        radius = np.atleast_1d(radius).astype('f4').astype('f8')\n\n        if ra.size != dec.size:\n            raise ValueError(\n                \"ra size (%d) != \" \"dec size (%d)\" % (ra.size, dec.size)\n            )\n\n        if radius.size != 1")],
+  "radius passes through float32: relative 6e-8 change moves the boundary by more than 1e-9 deg for radii above 0.02 deg")
